@@ -52,7 +52,6 @@ LIFTS = [
     dict(name="plainBuilder", file="src/core.go", func="Run", contains="item.text, item.colors = ansiProcessor(data)", pkg="./src"),
     dict(name="nthBuilder", file="src/core.go", func="Run", contains="item.origText = &data", pkg="./src"),
     dict(name="walkFn", file="src/reader.go", func="readFiles", contains="filepath.SkipDir", pkg="./src"),
-    dict(name="expand", file="src/terminal.go", func="replacePlaceholder", contains="parsePlaceholder(match)", pkg="./src"),
 ]
 
 
